@@ -45,7 +45,7 @@ func processReadBuf(rb []byte, searchDepth int) []byte {
 func (c *Channel) read() {
 	defer func() {
 		verifhook.Point("chan.read.exit")
-		c.readLoopExited = true
+		c.readLoopExited.Store(true)
 
 		close(c.readLoopDone)
 	}()
@@ -137,7 +137,7 @@ func (c *Channel) Read() ([]byte, error) {
 	}
 
 	verifhook.Point("chan.Read.flag")
-	if c.readLoopExited {
+	if c.readLoopExited.Load() {
 		return nil, util.ErrConnectionError
 	}
 
